@@ -54,7 +54,7 @@ fn never_blocks(op: &Op, kinds: &[ChanKind]) -> bool {
         // try_recv on a rendezvous channel hands off with a blocked sender: it may wait for that sender
         Op::TryRecv(c) => !matches!(kinds[*c], ChanKind::Bounded(0)),
         Op::DropTx(_) | Op::DropRx(_) => true,
-        Op::Spawn(_) | Op::Unpark(_) | Op::Abort(_) | Op::DropHandle(_) | Op::IsFinished(_) => true,
+        Op::Spawn(_) | Op::Unpark(_) | Op::Abort(_) | Op::DropHandle(_) | Op::IsFinished(_) | Op::JoinProbe(_) => true,
         Op::TryAcquire(..) | Op::Release(..) | Op::Close(_) | Op::Avail(_) | Op::AcqDrop => true,
         Op::EvSet(_) | Op::EvWake(_) | Op::Rand(_) | Op::ResetSteps | Op::Label(_) => true,
         _ => false,
